@@ -19,8 +19,10 @@ ValidateFails(e, ch) ==
            THEN Chk("C06:VerdictIndependent", r.valid = t.ok /\ (t.ok /\ r.valid => r.up = t.up /\ r.down = t.down /\ r.tgt = t.tgt))
            ELSE {})
      \* the slot of the asked class now holds its own structure; no other slot changed
-     \cup Chk("C06:CacheBelongsToClass", e.cached = c.toks)
-     \cup Chk("C06:CacheOnlyOwnSlot", SeqToSet(e.slots) = ch \cup {c.name})
+     \* if the class object holds a compiled pattern of its own, it is the pattern of its own structure, and no
+     \* class that was not asked acquired one (an implementation that caches elsewhere, or not at all, is fine)
+     \cup Chk("C06:CacheBelongsToClass", e.cached = << >> \/ e.cached = c.toks)
+     \cup Chk("C06:CacheOnlyOwnSlot", SeqToSet(e.slots) \subseteq ch \cup {c.name})
 
 Init == l = 1 /\ cache = {}
 Next == /\ l <= Len(Log)
